@@ -339,27 +339,51 @@ pub mod spec {
             f32_le(0.0f32, f_max_value()), f32_le(0.0f32, f_infinity()), f32_le(f_min_value(), 0.0f32), f32_le(f_neg_infinity(), 0.0f32);
     /// f32::clamp as std implements it: NaN passes through; panics unless min <= max (which excludes NaN bounds)
     pub open spec fn f_clamp(x: f32, lo: f32, hi: f32) -> f32 { if f32_lt(x, lo) { lo } else if f32_gt(x, hi) { hi } else { x } }
-    // R15: str operations of the parser.  Their results are uninterpreted; the one fact carried is the one the slices need:
-    // after `s.starts_with(p)` with an ASCII p, byte offset |p| lies inside s on a character boundary (so `&s[|p|..]` cannot panic).
+    // R15: str operations of the parser, as wrappers whose bodies are the original calls.  ASSUMED (std documentation of each method): the
+    // results are the functions of the character sequence stated below.  What a token splits into and what parses as a number stay uninterpreted.
+    /// the first n characters of s are ASCII, so byte offset n is character offset n and lies on a character boundary (`&s[n..]` cannot panic)
     pub uninterp spec fn str_tail_ok(s: Seq<char>, n: nat) -> bool;
+    pub open spec fn is_suffix(p: Seq<char>, s: Seq<char>) -> bool { p.len() <= s.len() && s.skip(s.len() - p.len()) =~= p }
+    /// `s.split(p)`: the pieces between occurrences of p, in order (uninterpreted)
+    pub uninterp spec fn str_split(s: Seq<char>, p: Seq<char>) -> Seq<Seq<char>>;
+    /// `s.parse::<i32>()` / `s.parse::<f32>()` succeed with this value (uninterpreted; a pure function of the characters)
+    pub uninterp spec fn parse_i32_spec(s: Seq<char>) -> Option<i32>;
+    pub uninterp spec fn parse_f32_spec(s: Seq<char>) -> Option<f32>;
     #[verifier::external_body]
     pub fn starts_with_lit(s: &str, p: &str) -> (r: bool)
         requires p.is_ascii(),
-        ensures r ==> str_tail_ok(s@, p@.len()),
+        ensures r == p@.is_prefix_of(s@), r ==> str_tail_ok(s@, p@.len()),
     { s.starts_with(p) }
     #[verifier::external_body]
     pub fn str_tail<'a>(s: &'a str, n: usize) -> (r: &'a str)
         requires str_tail_ok(s@, n as nat),
+        ensures r@ == s@.skip(n as int),
     { &s[n..] }
     #[verifier::external_body]
-    pub fn strip_suffix_lit<'a>(s: &'a str, p: &str) -> (r: Option<&'a str>) { s.strip_suffix(p) }
+    pub fn strip_suffix_lit<'a>(s: &'a str, p: &str) -> (r: Option<&'a str>)
+        ensures match r { Some(x) => is_suffix(p@, s@) && x@ == s@.take(s@.len() - p@.len()), None => !is_suffix(p@, s@) },
+    { s.strip_suffix(p) }
     /// the pieces of `s.split(p)`, collected (split is lazy but pure: the same pieces in the same order)
     #[verifier::external_body]
-    pub fn split_lit<'a>(s: &'a str, p: &str) -> (r: Vec<&'a str>) { s.split(p).collect() }
+    pub fn split_lit<'a>(s: &'a str, p: &str) -> (r: Vec<&'a str>)
+        ensures r@.len() == str_split(s@, p@).len(), forall|i: int| 0 <= i < r@.len() ==> (#[trigger] r@[i])@ == str_split(s@, p@)[i],
+    { s.split(p).collect() }
     #[verifier::external_body]
-    pub fn parse_i32(s: &String) -> (r: Result<i32, core::num::ParseIntError>) { s.parse::<i32>() }
+    pub fn parse_i32(s: &String) -> (r: Result<i32, core::num::ParseIntError>)
+        ensures match r { Ok(v) => parse_i32_spec(s@) == Some(v), Err(_) => parse_i32_spec(s@) is None },
+    { s.parse::<i32>() }
     #[verifier::external_body]
-    pub fn parse_f32(s: &String) -> (r: Result<f32, core::num::ParseFloatError>) { s.parse::<f32>() }
+    pub fn parse_i32_str(s: &str) -> (r: Result<i32, core::num::ParseIntError>)
+        ensures match r { Ok(v) => parse_i32_spec(s@) == Some(v), Err(_) => parse_i32_spec(s@) is None },
+    { s.parse::<i32>() }
+    #[verifier::external_body]
+    pub fn parse_f32_str(s: &str) -> (r: Result<f32, core::num::ParseFloatError>)
+        ensures match r { Ok(v) => parse_f32_spec(s@) == Some(v), Err(_) => parse_f32_spec(s@) is None },
+    { s.parse::<f32>() }
+    #[verifier::external_body]
+    pub fn parse_f32(s: &String) -> (r: Result<f32, core::num::ParseFloatError>)
+        ensures match r { Ok(v) => parse_f32_spec(s@) == Some(v), Err(_) => parse_f32_spec(s@) is None },
+    { s.parse::<f32>() }
     // R14: the additive identity std's `impl Sum for f32` starts from (0.0 or -0.0 depending on the toolchain): the wrapper's body is the empty sum itself
     pub uninterp spec fn f_sum_identity() -> f32;
     #[verifier::external_body]
@@ -499,8 +523,14 @@ pub mod spec {
         ensures s@ == k@ ==> (#[trigger] vstd::std_specs::hash::contains_borrowed_key::<String, V, str>(m, k) == #[trigger] m.contains_key(s));
     pub broadcast axiom fn ax_string_borrow_maps<V>(m: Map<String, V>, k: &str, s: String, v: V)
         ensures s@ == k@ ==> (#[trigger] vstd::std_specs::hash::maps_borrowed_key_to_value::<String, V, str>(m, k, v) == (#[trigger] m.contains_key(s) && m[s] == v));
+    /// A-hash (continued): a key that maps to a value is contained
+    pub broadcast axiom fn ax_string_borrow_maps_contains<V>(m: Map<String, V>, k: &str, v: V)
+        ensures #[trigger] vstd::std_specs::hash::maps_borrowed_key_to_value::<String, V, str>(m, k, v) ==> vstd::std_specs::hash::contains_borrowed_key::<String, V, str>(m, k);
     /// A-string-ext: two Strings with the same characters are the same value (the map axioms above already rely on this), and a String prints as itself
     pub broadcast axiom fn ax_string_ext(a: String, b: String)
+        ensures #![trigger a@, b@] a@ == b@ ==> a == b;
+    /// A-string-ext (continued): the same for string slices (a `match` on a &str against literals compares the slices themselves)
+    pub broadcast axiom fn ax_str_ext(a: &str, b: &str)
         ensures #![trigger a@, b@] a@ == b@ ==> a == b;
     pub broadcast axiom fn ax_str_of_string(s: String)
         ensures #[trigger] str_of(s) == s@;
@@ -528,7 +558,7 @@ pub mod spec {
     pub assume_specification[<crate::push::graph::Graph as Clone>::clone](a: &crate::push::graph::Graph) -> (b: crate::push::graph::Graph) ensures b == *a;
     pub assume_specification[<crate::push::io::PushMessage as Clone>::clone](a: &crate::push::io::PushMessage) -> (b: crate::push::io::PushMessage) ensures b == *a;
     pub broadcast group group_clone {
-        ax_string_key_model, ax_string_obeys_eq, ax_string_eq_spec, ax_str_of_string, ax_string_borrow_contains, ax_string_borrow_maps, ax_clone_item, ax_clone_boolvector, ax_clone_intvector, ax_clone_floatvector, ax_clone_index, ax_clone_graph, ax_clone_message,
+        ax_string_key_model, ax_string_obeys_eq, ax_string_eq_spec, ax_str_of_string, ax_string_borrow_contains, ax_string_borrow_maps, ax_string_borrow_maps_contains, ax_clone_item, ax_clone_boolvector, ax_clone_intvector, ax_clone_floatvector, ax_clone_index, ax_clone_graph, ax_clone_message,
     }
     
     /// C01's resource envelope: every stack, vector and record is smaller than 2^31-1 items.
